@@ -76,7 +76,7 @@ def write_replay(check, failure, n):
     path = os.path.join(d, "case_%06d_%d.json" % (failure.get("index", 0), n))
     with open(path, "w") as fh:
         json.dump({
-            "property": check.id, "build": check.build_kind, "spec": failure["spec"], "reason": failure["reason"],
+            "property": check.id, "build": failure.get("build", check.build_kind), "spec": failure["spec"], "reason": failure["reason"],
             "cases": failure["cases"], "observed": failure["observed"], "spec_b64": failure.get("spec_b64"),
             "replay": "cd /verif && ./vc replay %s" % path,
         }, fh, indent=1)
@@ -87,7 +87,7 @@ def confirm(check, failure):
     """replay a failing spec twice in fresh processes; returns ('confirmed'|'unstable'|'vanished', results)"""
     runs = []
     for _ in range(2):
-        rn = R.Runner(build=check.build_kind, horizon_ms=max(check.horizon_ms, 10000))
+        rn = R.Runner(build=failure.get("build", check.build_kind), horizon_ms=max(check.horizon_ms, 10000))
         try:
             cs = [dict(c) for c in failure["cases"]]
             runs.append(rn.run_batch(cs))
